@@ -1,7 +1,7 @@
 (** C17 — a saved assembly (.uasm) runs exactly like the program it was compiled from.
     Property theorems only; every proof is [exact lemma]. *)
 From Coq Require Import List NArith Bool.
-From UV Require Import Base.Value Model.Uasm Model.UasmValue Model.UasmPlain Proofs.Uasm Proofs.UasmValue Proofs.UasmValueRt.
+From UV Require Import Base.Value Model.Uasm Model.UasmValue Model.UasmPlain Proofs.Uasm Proofs.UasmValue Proofs.UasmValueRt Proofs.UasmMarks.
 Import ListNotations.
 
 (** Framing of the current reader (whole-line section markers, /repo 0f91cb1; optional trailing
@@ -65,11 +65,17 @@ Proof. exact value_json_refuted_complex_pre. Qed.
 Theorem C17_value_json_refuted_nan_pre :
   exists x, of_json false (to_json false (VNum [] [x])) = Some (MV (VNum [] [F_NAN_BITS]) None None) /\ x <> F_NAN_BITS.
 Proof. exact value_json_refuted_nan_pre. Qed.
-(** Still open, outside [value] (map keys are metadata): a map with character keys over an empty
-    box array of rank 2 reads back as a malformed character array. *)
-Theorem C17_value_json_refuted_map :
-  exists m j m', mto_json true m = Some j /\ of_json true j = Some m' /\ mval_same m' m = false.
-Proof. exact value_json_refuted_map. Qed.
+(** Record of the defect repaired by /repo 71ff4d9 (unknown metadata fields were ignored): a map with
+    character keys over an empty box array of rank 2 read back as a malformed character array. *)
+Theorem C17_value_json_refuted_map_pre :
+  exists m j m', mto_json false m = Some j /\ of_json false j = Some m' /\ mval_same m' m = false.
+Proof. exact value_json_refuted_map_pre. Qed.
+
+(** Marks: the writer strips the sortedness marks and the reader recomputes them by one scan over
+    adjacent rows with an early exit; what it establishes is exactly the truthful marks (sorted up
+    iff no adjacent pair of rows is descending, sorted down iff none is ascending). *)
+Theorem C17_reread_marks_truthful : forall cs, recompute_marks cs = truthful_marks cs.
+Proof. exact recompute_marks_truthful. Qed.
 
 (** non-vacuity: a non-trivial assembly meets the premises *)
 Example C17_nonvacuous :
@@ -95,4 +101,5 @@ Print Assumptions C17_value_json_roundtrip_exact.
 Print Assumptions C17_value_json_refuted_string_pre.
 Print Assumptions C17_value_json_refuted_complex_pre.
 Print Assumptions C17_value_json_refuted_nan_pre.
-Print Assumptions C17_value_json_refuted_map.
+Print Assumptions C17_value_json_refuted_map_pre.
+Print Assumptions C17_reread_marks_truthful.
